@@ -187,6 +187,20 @@ def run(tier, seed, replay):
             for c in r.cases:
                 for v, srcs in semrun.build_sources(c, rnd, 1, plain_first=False):
                     groups.append(("family case", [[p, t] for p, t in srcs], semrun.case_scripts(c) if "data" in c else []))
+        # ---- names made of characters that are letters or digits to Unicode but not identifier characters to JavaScript
+        # (superscripts, circled letters and digits, fractions, ...) next to names that are identifiers to both, in every
+        # position where the generator pastes a name
+        odd = ["m\u00b2", "x\u2460", "\u24d0", "h\u00bd", "\u00e9", "\u5b57\u6bb5", "a\u0301", "\u00aa", "\u2160", "a\u200db", "\u2118", "\u212e",
+               "\u0660a", "a\u0660", "\u1885", "\u309b", "\U0001d7d8", "\U00020000", "x\u00b7y", "\u00b7x", "a\u203f", "\ufe33a"]
+        forms = ["{{ %s }}", "{{ a.%s }}", "{{ a.%s.b }}", "{{ {%s: 1} }}", "{{ {%s} }}", "{{ %s ? 1 : 2 }}", '<v wx:if="{{ %s }}"/>',
+                 '<v wx:for="{{ l }}" wx:for-item="%s">{{ %s }}</v>', '<c><v slot:%s>{{ %s }}</v></c>', '<wxs module="%s">exports.a=1</wxs>{{ %s.a }}',
+                 '<v model:value="{{ %s }}"/>', '<v data:%s="1" mark:%s="2" bind:%s="h"/>']
+        files = []
+        for i, n in enumerate(odd):
+            for j, f in enumerate(forms):
+                files.append(["n%d_%d" % (i, j), f.replace("%s", n)])
+        for k in range(0, len(files), 60):
+            groups.append(("unicode names", files[k:k + 60], []))
         # ---- literal spellings
         lres = vlib.tlc("MCLiterals", cfg="MCLiterals", workers=4, timeout=600, sample=(3, seed) if tier == "quick" else None)
         vlib.tlc_expect_ok(lres, "MCLiterals")
